@@ -18,6 +18,7 @@ type Resp struct {
 	CL      int64 // declared Content-Length, -1 if none
 	Close   bool  // carries "Connection: close"
 	KeepAl  bool  // carries "Connection: keep-alive"
+	NCL     int   // number of Content-Length lines in the header block
 	Trailer http.Header
 	Raw     int // bytes of output this message occupies
 }
@@ -70,14 +71,18 @@ func (s *RespStream) Next(untilClose bool) (*Resp, error) {
 	if i := bytes.Index(head, []byte("\r\n\r\n")); i >= 0 {
 		head = head[:i]
 	}
+	ncl := 0 // Content-Length lines in the raw header block (the decoder's ContentLength is 0 for 1xx/204 whatever they say)
 	for _, ln := range strings.Split(string(head), "\r\n") {
 		if c := strings.IndexByte(ln, ':'); c > 0 && strings.EqualFold(strings.TrimSpace(ln[:c]), "connection") {
 			conn += "," + strings.ToLower(ln[c+1:])
 		}
+		if c := strings.IndexByte(ln, ':'); c > 0 && strings.EqualFold(strings.TrimSpace(ln[:c]), "content-length") {
+			ncl++
+		}
 	}
 	return &Resp{Status: r.StatusCode, Proto: r.Proto, Header: r.Header, Body: body, Chunked: isChunked(r),
 		CL: r.ContentLength, Close: strings.Contains(conn, "close"), KeepAl: strings.Contains(conn, "keep-alive"),
-		Trailer: r.Trailer, Raw: used}, nil
+		Trailer: r.Trailer, Raw: used, NCL: ncl}, nil
 }
 
 // Leftover returns the number of output bytes not consumed by complete responses.
